@@ -67,7 +67,13 @@ def generate(job):
     }
     n = ro.randint(4, 12)
     for _ in range(n):
-        t = ro.weighted([("select", 4), ("scale", 3), ("observe", 4), ("ff", 3)])
+        t = ro.weighted([("select", 4), ("scale", 3), ("observe", 4), ("ff", 3), ("faulted", 1.5)])
+        if t == "faulted":
+            # an evaluation / fit-fraction computation that is interrupted by an exception at a seeded line; the
+            # history then continues and must keep matching the reference (nothing may be left behind)
+            inner = {"k": ro.choice(OBSERVE + FF), "batch": ro.choice(["1", "nd", "big"]), "res_sub": False, "split": 2}
+            spec["ops"].append({"k": "faulted", "inner": inner, "pos": ro.choice([30, 300, 1500, 5000, 20000])})
+            continue
         if t == "select":
             k = ro.choice(SELECT)
             op = {"k": k, "idx": [ro.randrange(100) for _ in range(ro.randint(1, 2))]}
@@ -268,6 +274,27 @@ class Session:
             ws = amp.partial_weight_interference(D)
             for (i, j), w in ws.items():
                 self.close(np.array(w), self.ref_density([i, j]), "pair-weight", "partial_weight_interference")
+        elif k == "faulted":
+            from sim.seams import InjectedFault, InjectedInterrupt, LineTracer
+            import sys
+
+            tr = LineTracer(fire_at=op["pos"], exc_type=InjectedInterrupt if op["pos"] % 7 == 0 else InjectedFault)
+            try:
+                try:
+                    with tr:
+                        self.run(op["inner"])
+                finally:
+                    sys.settrace(None)
+            except (InjectedFault, InjectedInterrupt):
+                self.log.count("fault.operation_interrupted_at_line")
+            self.changes += 1
+            # whatever was interrupted: the selection and the couplings are those of the reference model
+            got = sorted(set(int(i) for i in dg.chains_idx))
+            if got != sorted(set(self.S)):
+                self.log.fail("selection", "after-interrupted-%s|selection" % op["inner"]["k"], "after %s was interrupted by an exception the active chains are %s instead of %s" % (op["inner"]["k"], got, sorted(set(self.S))), step=self.step)
+                raise Failure()
+            if self.S:
+                self.close(np.array(amp(D)), self.ref_density(), "density", "model(data) after an interrupted %s" % op["inner"]["k"])
         elif k in FF:
             if inner or sorted(self.S) != list(range(self.nchains)):
                 return
